@@ -110,14 +110,14 @@ def parse_template(path):
             elif word == "addarg":
                 cnt, r = rest.split(" ", 1)
                 rx, text = split_regex_directive(r)
-                item.addargs.append((int(cnt), rx, text))
+                item.addargs.append((None if cnt == "*" else int(cnt), rx, text))
             elif word in ("rewrite", "retype"):
                 cnt, r = rest.split(" ", 1)
                 rx, tail = split_regex_directive(r)
                 if not tail.startswith("=>"): raise ValueError("%s:%d rewrite needs =>" % (path, ln))
                 repl = tail[2:].strip()
                 if repl == "<empty>": repl = ""
-                item.rewrites.append((int(cnt), rx, repl, word))
+                item.rewrites.append((None if cnt == "*" else int(cnt), rx, repl, word))
             elif word == "insert":
                 where = rest.split(" ", 1)[0]
                 nm, r = rest[len(where):].strip().split(" ", 1)
@@ -370,15 +370,15 @@ def build_item(spec, vacuity=False):
                         add(p, p, [Seg(lead + argtext, "addarg")])
                         hits += 1
                 k = src.next_sig(k)
-            if hits != cnt:
+            if cnt is not None and hits != cnt:
                 raise LostAnchor("%s: addarg /%s/ matched %d call sites, expected %d" % (spec.locator, rx, hits, cnt))
-            report["ghost_insertions"].append("addarg /%s/ %s x%d" % (rx, argtext, cnt))
+            report["ghost_insertions"].append("addarg /%s/ %s x%d" % (rx, argtext, hits))
         # rewrites of executable text
         for (cnt, rx, repl, rkind) in spec.rewrites:
             region_lo = lo if kind == "fn" else b_lo
             region = text[region_lo:b_hi]
             ms = list(re.finditer(rx, region))
-            if len(ms) != cnt:
+            if cnt is not None and len(ms) != cnt:
                 raise LostAnchor("%s: rewrite /%s/ matched %d times, expected %d" % (spec.locator, rx, len(ms), cnt))
             for mm in ms:
                 new = mm.expand(repl)
